@@ -39,8 +39,10 @@ impl SimulationBoundary {
         ];
 
         Self {
-            anchor: anchor - width,
-            inverse_width: 1. / (3. * width),
+            // The integer domain must contain the mirror images of all generators through
+            // all walls, i.e. the closed interval [anchor - width, anchor + 2 * width].
+            anchor: anchor - 1.5 * width,
+            inverse_width: 1. / (4. * width),
             dimensionality,
             clipping_planes,
         }
